@@ -152,6 +152,24 @@ def _encode_verify(m):
     raise ValueError('encode_verify shape not recognised')
 
 
+def _delta_add(m):
+    body = m.group(1)
+    if re.search(r'last_seen\.checked_add\(1\) != Some\(delta\.serial\(\)\)', body):
+        return True
+    if re.search(r'last_seen \+ 1 != delta\.serial\(\)', body):
+        return False
+    raise ValueError('delta loop shape not recognised')
+
+
+def _escapes(m, want):
+    got = {}
+    for a, b in re.findall(r"b'(\\?.)' => Some\(\"([^\"]*)\"\)", m.group(1)):
+        got[a[-1]] = b
+    if got != want:
+        raise ValueError('escape table differs: %r' % got)
+    return True
+
+
 def _raise(msg):
     raise ValueError(msg)
 
@@ -198,6 +216,22 @@ EXTRA = _RTR + [
      lambda m: True, ['C10']),
     ('sigmsgCrlWindow', 'src/ca/sigmsg.rs',
      r'(if self\.this_update > when \{[\s\S]*?else if self\.next_update < when \{)', lambda m: True, ['C10']),
+    # ---- C09
+    ('rrdpDeltaCheckedAdd', 'src/rrdp.rs',
+     r'pub fn sort_and_verify_deltas\(&mut self, limit: Option<usize>\) -> bool \{([\s\S]*?)\n    \}',
+     lambda m: _delta_add(m), ['C09']),
+    ('rrdpMaxHeaderSize', 'src/rrdp.rs', r'const MAX_HEADER_SIZE: u64 = ([0-9_]+);', 'nat', ['C09']),
+    ('rrdpMaxFileSize', 'src/rrdp.rs', r'const MAX_FILE_SIZE: u64 = ([0-9_]+);', 'nat', ['C09']),
+    ('xmlCounterShape', 'src/xml/decode.rs',
+     r'(fn fill_buf\(&mut self\) -> io::Result<&\[u8\]> \{\s*if self\.limit > 0 && self\.trip > self\.limit \{\s*return Err\([\s\S]*?self\.reader\.fill_buf\(\)\s*\}\s*fn consume\(&mut self, amt: usize\) \{\s*self\.trip = self\.trip\.saturating_add\(\s*u64::try_from\(amt\)\.unwrap_or_default\(\)\s*\);\s*self\.reader\.consume\(amt\))',
+     lambda m: True, ['C09']),
+    ('xmlResetAndLimit', 'src/xml/decode.rs',
+     r'(pub fn reset_and_limit\(&mut self, limit: u64\) \{\s*self\.reader\.get_mut\(\)\.reset\(\);\s*self\.reader\.get_mut\(\)\.limit\(limit\);)',
+     lambda m: True, ['C09']),
+    ('xmlAttrEscapes', 'src/xml/encode.rs',
+     r'TextEscape::Attr => \{\s*match ch \{([\s\S]*?)_ => None', lambda m: _escapes(m, {'<': '&lt;', '>': '&gt;', '"': '&quot;', "'": '&apos;', '&': '&amp;'}), ['C09', 'C11']),
+    ('xmlPcdataEscapes', 'src/xml/encode.rs',
+     r'TextEscape::Pcdata => \{\s*match ch \{([\s\S]*?)_ => None', lambda m: _escapes(m, {'<': '&lt;', '&': '&amp;'}), ['C09', 'C11']),
     # ---- C14
     ('mftExtLen', 'src/repository/manifest.rs', r'fn validate_file_name\(name: &\[u8\]\)[\s\S]*?if n\.len\(\) != (\d+) \|\| !n\.iter\(\)\.all\(\|c\| c\.is_ascii_alphabetic\(\)\)', 'nat', ['C14']),
     ('mftNameCheckedBothSites', 'src/repository/manifest.rs',
